@@ -74,6 +74,28 @@ var mutSources = map[string]func() types.Value{
 	"built-by-Set": func() types.Value {
 		return types.NewMapWithSize(2).Set(s("a"), types.NewInt(1)).Set(s("b"), types.NewInt(2))
 	},
+	// WIDE sources, immutable and mutable: documents of 9–70 keys of which the target struct consumes a few – every
+	// other source of this pool (and of the registry pool) has at most three keys (seeded change c17k: above eight
+	// buckets the struct decoder's working copy shared the source's bucket table and deleted the consumed keys
+	// from the SOURCE; the first decode was right, the second one of the same Value saw a document without them)
+	"wide9":        func() types.Value { return wide(9) },
+	"wide9mut":     func() types.Value { return wide(9).(types.Map).Mutable() },
+	"wide16":       func() types.Value { return wide(16) },
+	"wide40":       func() types.Value { return wide(40) },
+	"wide40mut":    func() types.Value { return wide(40).(types.Map).Mutable() },
+	"wide70":       func() types.Value { return wide(70) },
+	"map{k:wide}":  func() types.Value { return types.NewMap(s("k"), wide(12), s("ab"), wide(33)) },
+	"slice[wide]":  func() types.Value { return types.NewSlice(wide(9), wide(33).(types.Map).Mutable()) },
+	"wide{k:wide}": func() types.Value { return wide(20).(types.Map).Set(s("k"), wide(10)).Set(s("ab"), wide(11)) },
+}
+
+// wide builds an immutable document with n keys: a, b (the fields of the struct targets) and extra_i.
+func wide(n int) types.Value {
+	ps := []types.Value{s("a"), types.NewInt(1), s("b"), s("x")}
+	for i := 2; i < n; i++ {
+		ps = append(ps, s(fmt.Sprintf("extra_%d", i)), types.NewInt(i))
+	}
+	return types.NewMap(ps...)
 }
 
 var mutTargets = map[string]reflect.Type{
